@@ -1,0 +1,28 @@
+//go:build verif
+
+package verifiable
+
+import (
+	"context"
+
+	core "github.com/iden3/go-iden3-core/v2"
+	"github.com/iden3/go-schema-processor/v2/merklize"
+)
+
+// Entry points used by the verification harness (/verif). Compiled only with
+// the build tag "verif"; they add no behaviour.
+
+// VerifVerifyCoreClaim exposes the credential/claim binding check that
+// VerifyProof runs first.
+func (vc *W3CCredential) VerifVerifyCoreClaim(ctx context.Context,
+	claim *core.Claim, opts []merklize.MerklizeOption) error {
+	return vc.verifyCredentialCoreClaim(ctx, claim, opts)
+}
+
+// VerifWithMerklizeOptions lets the harness pass merklizer options (an offline
+// document loader) to VerifyProof.
+func VerifWithMerklizeOptions(opts ...merklize.MerklizeOption) W3CProofVerificationOpt {
+	return func(c *w3CProofVerificationConfig) {
+		c.merklizeOptions = append(c.merklizeOptions, opts...)
+	}
+}
